@@ -234,4 +234,8 @@ class SvsInst:
         self.running = False
         self.timer_rst_event.set()
         self.ndn_app.detach_handler(self.base_prefix)
+        # End the timer loop now: if it only noticed ``running`` at its next wake-up, a ``start()`` that follows at once
+        # would leave two loops running (every announcement sent twice)
+        if self.timer_task is not None:
+            self.timer_task.cancel()
         self.timer_task = None
